@@ -52,7 +52,7 @@ def model_vs_impl(tag, cases, check_fn="check_validate", shard=120):
 
 
 def show_model(tag, body, check_fn="check_validate"):
-    expr = body.replace(check_fn, "(fun o sg g E _ => validate o sg g E)", 1)
+    expr = body.replace(check_fn, "(fun o sg g E _ => validate_impl o sg g E)", 1)
     return F.coq_show(tag, PREAMBLE, expr)
 
 
